@@ -493,10 +493,10 @@ def thorough_extras(prop):
     evidence (it decides nothing: it would mean a defect outside the contracts' coverage, or a wrong oracle)."""
     out = []
     t0 = time.time()
-    p = subprocess.run([sys.executable, os.path.join(HERE, 'selftest.py'), prop], capture_output=True, text=True)
+    p = subprocess.run([sys.executable, os.path.join(HERE, 'selftest.py'), prop, '--jobs=4'], capture_output=True, text=True)
     rows = [l for l in p.stdout.split('\n') if l.strip() and not l.startswith('SELFTEST')]
     st = {'name': 'selftest (seeded mutations)', 'failures': [], 'undecided': [], 'rows': rows, 'wall': round(time.time() - t0, 1),
-          'cmd': 'python3 tools/selftest.py %s' % prop}
+          'cmd': 'python3 tools/selftest.py %s --jobs=4' % prop}
     if p.returncode != 0:
         st['undecided'].append('a seeded mutation recorded as detected is no longer detected: ' + ' | '.join(r for r in rows if ' detected ' not in r)[:300])
     out.append(st)
